@@ -603,10 +603,10 @@ impl<'a> R<'a> {
             "panic" | "unreachable" | "unimplemented" => {
                 if self.fc.partial {
                     self.rule("R6:panic->diverge(partial)");
-                    Some("diverge()".to_string())
+                    Some("vx_diverge()".to_string())
                 } else {
                     self.rule("R6:panic->unreached(total)");
-                    Some("unreached()".to_string())
+                    Some("vx_unreached()".to_string())
                 }
             }
             "debug_assert" | "debug_assert_eq" | "trace" | "debug" | "info" | "warn" => {
